@@ -13,7 +13,7 @@ import vlib
 import drv_brokerclient as D
 from props import brokerclient_lib as L
 
-THEOREMS = ["C10_reentrant_reachable", "C10_reentrant_never_resent", "C10_reentrant_conservative", "C10_unguarded_flush_refuted", "C10_never_stuck", "C10_one_connection", "C10_table_shape", "C10_reachable", "C10_resend", "C10_resend_at_loss", "C10_never_resent", "C10_once_per_connection", "C10_write_own_id",
+THEOREMS = ["C10_no_early_attempt", "C10_written_on_current_connection", "C10_reentrant_close_all_fired", "C10_reentrant_reachable", "C10_reentrant_never_resent", "C10_reentrant_conservative", "C10_unguarded_flush_refuted", "C10_never_stuck", "C10_one_connection", "C10_table_shape", "C10_reachable", "C10_resend", "C10_resend_at_loss", "C10_never_resent", "C10_once_per_connection", "C10_write_own_id",
             "C10_reconnect_iff_pending", "C10_idle_connects_on_request", "C10_backoff_fail", "C10_backoff_fire", "C10_backoff",
             "C10_close", "C10_closed_forever"]
 WHICH = ("C10",)
@@ -95,7 +95,7 @@ def run(ck):
         pk = rnd.choice(L.POLICIES)
         items.append((evs, D.run_impl(evs, pk), pk))
         ck.hist("drop_point_histories")
-    L.evaluate(ck, "structured drop-point histories (every request status x loss before/between/inside frames x k failed attempts x re-loss)",
+    L.evaluate(ck, "structured drop-point histories (random sample of: request statuses x loss before/between/inside frames x k failed attempts x re-loss)",
                items, WHICH, THEOREMS, L.nontrivial_c10, rnd)
 
     items = L.generate(ck, rnd, 1100 * scale, ["c10", "c10", "c10", "c06"], [8, 20, 40, 40, 70, 120], end_close_p=0.3)
@@ -124,7 +124,7 @@ def run(ck):
         L.exhaustive(ck, 7, "split", WHICH, THEOREMS, rnd)
         ck.coqchk(["AV.Props.C10"])
 
-    ck.cov["rule"] = ("seeded generators (random.Random(VERIF_SEED)): (a) structured drop-point histories - 1-7 requests in every status (answered, "
+    ck.cov["rule"] = ("seeded generators (random.Random(VERIF_SEED)): (a) structured drop-point histories (a random sample, not an enumeration) - 1-7 requests drawn over every status (answered, "
                       "cancelled after/before being written, no-reply, unsent, live), connection lost before / between / inside response frames, 0-5 consecutive "
                       "failed attempts with cancels, new requests and close during back-off, reconnect, stale bytes, 1-3 rounds; (b) on-line state-aware "
                       "generator over the whole event alphabet with about 10% late/disabled events; (c) every enabled sequence up to the stated depth over "
@@ -135,9 +135,12 @@ def run(ck):
     ck.assumptions += [
         "hand-written Gallina model Model/BrokerClient.v stands for afkak/brokerclient.py:44-79,148-462 (tie = this run's differential correspondence, not a proof)",
         "Twisted (Deferred, Clock, deferLater, maybeDeferred) is exercised, not verified; that a reactor fires the back-off timer after the delay it was given is runtime behaviour: the model carries the failure COUNT handed to the retry policy, the driver checks the float bit for bit",
-        "the retry policy is a parameter (any callable); jitter of afkak's default policy is outside the statement",
+        "the retry policy is a parameter (any callable that returns a number); jitter of afkak's default policy is outside the statement; a policy or endpoint factory that RAISES is outside the model and not generated (a raising retryPolicy leaves self.connector a fired Deferred: the real client would never reconnect, C10_never_stuck says nothing about it)",
         "request payload bytes are outside the model; sendString/transport.write assumed not to raise (brokerclient.py:370-373 not modelled)",
-        "endpoints whose connect() completes synchronously are outside the model's alphabet; the model header argues they equal the outcome arriving as the next event, and this check runs that comparison on the real code (sync_connect_part); callbacks re-entering the client: from reply callbacks (tail position) checked the same way (reentrant_part); close()/cancel() from the callback of a no-reply request (fired in the middle of _sendQueued, finding F-C10-1) are INSIDE the extended model Model/BrokerClientHook.v (theorems C10_reentrant_*) and its correspondence; other calls (makeRequest, disconnect) from that callback are not modelled",
+        "endpoints whose connect() completes synchronously are outside the model's alphabet; the model header argues they equal the outcome arriving as the next event, and this check runs that comparison on the real code (sync_connect_part); user callbacks/errbacks re-entering the client: inside _sendQueued's and close()'s loops they are INSIDE the extended model Model/BrokerClientHook.v (IConnOk / IClose interleavings, theorems C10_reentrant_*) and its correspondence; in tail positions the driver inserts the call as the next event (checked, not proved); where user code runs inside close()'s loop the comparison with the model is made only when the order of failing is observably the model's (newest first, no tombstone), otherwise only the order-independent monitors apply (the property does not fix that order)",
+        "a cancelled connection attempt fails with CancelledError (bare Deferred) or ConnectingCancelledError (Twisted's stock endpoints): both flavours are generated (policy suffix +cc, drv_brokerclient.CcNet), the model does not distinguish them",
+        "events the environment cannot produce (no attempt / transport / Deferred to act on) cannot be applied to the implementation; a timer event with no timer armed is applied as an hour of virtual time passing",
+        "C10_close and the model fail the pending requests newest first; the property does not fix the order: the driver puts the ClientError firings of one close() into that order before comparing and the monitor demands only the SET",
         "loseConnection() is only a REQUEST in the simulated transport: the loss is the separate event `lost`, so the window between the two is explored",
         "extraction: ExtrOcamlBasic only; sample re-evaluated in Coq by vm_compute (the exhaustive enumeration is compared against the extracted runner only)",
     ]
